@@ -201,15 +201,15 @@ func genTree(seed uint64, reopen bool) *TreePlan {
 }
 
 type treeRun struct {
-	plan   *TreePlan
-	tree   *z.Tree
-	path   string
-	model  map[uint64]uint64
-	gone   map[uint64]bool // keys removed so far (must read 0 until set again)
-	viol   []Violation
-	prop   string
-	stats  treeStats
-	opIdx  int
+	plan  *TreePlan
+	tree  *z.Tree
+	path  string
+	model map[uint64]uint64
+	gone  map[uint64]bool // keys removed so far (must read 0 until set again)
+	viol  []Violation
+	prop  string
+	stats treeStats
+	opIdx int
 }
 
 type treeStats struct {
